@@ -41,7 +41,7 @@ NoCtx == [active |-> FALSE, sid |-> 0, key |-> "", parent |-> AbsentObj, sel |->
           prevQuiet |-> FALSE, hookOK |-> FALSE, nonBenign |-> FALSE, hook429 |-> FALSE, childFault |-> FALSE,
           statusConflict |-> FALSE, parentGone |-> FALSE, claimFail |-> FALSE, revWrites |-> 0,
           hookReq |-> [children |-> <<>>], result |-> "", parentChanged |-> FALSE, parentReqsAfterHook |-> 0,
-          store0 |-> <<>>, hookSeq |-> <<>>, okEtags |-> {}, allOK |-> TRUE, statusConflicts |-> 0]
+          store0 |-> <<>>, hookSeq |-> <<>>, okEtags |-> {}, allOK |-> TRUE, statusConflicts |-> 0, finGone |-> FALSE]
 
 E      == Trace[l]
 HasE   == l <= N
@@ -364,7 +364,7 @@ C06_UndesiredDeletedBackground ==
 \* completeness at the end of a sync that reconciled children without any failure:
 \* every action the strategy prescribes was actually requested
 Issued(c, verb, k) == <<verb, k>> \in c.issued
-ManageRan(c) == Reached(c) /\ (~Cur(c).deleting \/ (FinOn /\ HasFin(Cur(c), c) /\ ~GCFin(Cur(c))))
+ManageRan(c) == Reached(c) /\ (~Cur(c).deleting \/ (FinOn /\ HasFin(Cur(c), c) /\ ~c.finGone /\ ~GCFin(Cur(c))))
 C06_Complete ==
   (IsEv("SyncEnd") /\ E.a \in DOMAIN ctx /\ ctx[E.a].active /\ ManageRan(ctx[E.a]) /\ ~AnyRolling
      /\ ctx[E.a].failedReqs = <<>> /\ E.result = "ok")
@@ -413,7 +413,7 @@ C10_LeftoverRemoved ==
      \/ ~HasFin(Lookup(store, ParentKeyOf(c)), c)
      \/ Report("C10", "C10_LeftoverRemoved", <<ParentKeyOf(c)>>)
 C10_DyingNoTouch ==
-  (ReqE /\ IsChildReq(E) /\ E.verb \in WriteVerbs /\ Cur(C).deleting /\ (~FinOn \/ ~HasFin(Cur(C), C) \/ GCFin(Cur(C))))
+  (ReqE /\ IsChildReq(E) /\ E.verb \in WriteVerbs /\ Cur(C).deleting /\ (~FinOn \/ ~HasFin(Cur(C), C) \/ C.finGone \/ GCFin(Cur(C))))
   => Report("C10", "C10_DyingNoTouch", <<E.verb, Key(E), "fins", Cur(C).fins>>)
 \* while finalizing with finalized:false the children are still reconciled to the answer
 C10_StillReconciled ==
@@ -868,6 +868,8 @@ CtxAfterReq(c, e) ==
         !.childFault = @ \/ (childMut /\ ~Accepted(e) /\ c.nHooks > 0),
         !.claimFail = @ \/ (c.nHooks = 0 /\ ~Accepted(e) /\ e.code \notin {404}),
         !.statusConflict = @ \/ (parentPut /\ e.code = 409),
+        \* this sync has removed our finalizer from the parent (whatever object the code keeps working with)
+        !.finGone = @ \/ (parentPut /\ e.verb = "update" /\ Accepted(e) /\ HasFin(e.pre, c) /\ ~(e.post.live /\ HasFin(e.post, c))),
         !.statusConflicts = IF parentPut /\ e.code = 409 /\ c.nHooks > 0 THEN @ + 1 ELSE @,
         !.parentGone = @ \/ (IsParentReq(e, c) /\ (e.code = 404 \/ (Accepted(e) /\ e.verb = "get" /\ e.got.uid # c.parent.uid))),
         !.needFreshGet = IF parentPut /\ e.verb = "updateStatus" /\ e.code = 409 THEN TRUE
